@@ -89,6 +89,7 @@ class MemConn(secsgem.common.Connection):
         super().__init__(settings)
         self.rig = None
         self.refuse = 0  # fault input: the next `refuse` calls of send_data return False (the socket refuses the write)
+        self.lie = 0     # fault input: the next `lie` calls transmit the data and return False all the same (error after the write)
 
     def enable(self):
         # a transport whose enable() brings the link up synchronously (serial line, in-process pipe): connected and selected
@@ -109,6 +110,9 @@ class MemConn(secsgem.common.Connection):
             return False
         if rig is not None:
             rig.log.append(("raw", bytes(data)))
+        if self.lie > 0:
+            self.lie -= 1
+            return False
         return True
 
 
@@ -426,6 +430,53 @@ class Rig:
         for k in (id(self.h), id(self.h._callback_handler), id(self.h._communication_state)):
             RIGS.pop(k, None)
         self.c.rig = None
+
+
+# ------------------------------------------------------------------------------------------------ isolation probe
+def shared_mutables(a, b, depth=2):
+    """Mutable objects that two independently constructed handlers have in common (each must own its lists, dicts, events,
+    queues, state machines, callback tables …).  Walks instance and class attributes (no properties are evaluated), `depth`
+    levels into objects of secsgem classes.  Loggers, classes, functions, modules, enum members and immutable values are fine."""
+    import collections
+    import enum
+    import logging as _logging
+    import queue as _queue
+    import types
+
+    containers = (list, dict, set, bytearray, collections.deque, _queue.Queue, _queue.SimpleQueue, threading.Event, threading.Condition,
+                  type(threading.Lock()), type(threading.RLock()))
+    found, seen = [], set()
+
+    def attrs(o):
+        out = dict(vars(o)) if hasattr(o, "__dict__") else {}
+        for cls in type(o).__mro__:
+            if cls.__module__.startswith("secsgem"):
+                for k, v in vars(cls).items():
+                    if not k.startswith("__") and k not in out and not callable(v) and not isinstance(v, (property, classmethod, staticmethod, types.MemberDescriptorType)):
+                        out[k] = v
+        return out
+
+    def is_obj(v):
+        return type(v).__module__.startswith("secsgem") and not isinstance(v, (enum.Enum, type))
+
+    def walk(x, y, path, d):
+        if (id(x), id(y)) in seen:
+            return
+        seen.add((id(x), id(y)))
+        ax, ay = attrs(x), attrs(y)
+        for k in ax:
+            if k not in ay:
+                continue
+            u, v = ax[k], ay[k]
+            if isinstance(u, (_logging.Logger, type, types.FunctionType, types.ModuleType, types.MethodType)) or u is None:
+                continue
+            if u is v and (isinstance(u, containers) or is_obj(u)):
+                found.append(f"{path}.{k} ({type(u).__name__})")
+            elif d > 0 and is_obj(u) and is_obj(v):
+                walk(u, v, f"{path}.{k}", d - 1)
+
+    walk(a, b, type(a).__name__, depth)
+    return found
 
 
 # ------------------------------------------------------------------------------------------------ model driver
